@@ -265,14 +265,17 @@ def run_time(c, rec):
             rec.count("observe_refused")
             return
         go = grid if gobs is None else gobs
-        want = RectBivariateSpline(grid, times, U)(go, tobs_arr)
-        # exactness where observation nodes/times coincide with solution nodes/times
-        if c["obs"] in ("equal", "none", "subset") and c["time_obs"] in ("final", "all", "subset"):
+        on_nodes = c["obs"] in ("equal", "none", "subset") and c["time_obs"] in ("final", "all", "subset")
+        if on_nodes:
+            # observation nodes/times coincide with solution nodes/times: exact restriction, whatever interpolant is used
             ridx = list(range(n)) if c["obs"] != "subset" else sorted(c["obs_idx"])
             cidx = {"final": [nt - 1], "all": list(range(nt)), "subset": sorted(c["tidx"])}[c["time_obs"]]
-            exact = U[np.ix_(ridx, cidx)]
-            require(close(want, exact, 1e-8), "reference spline not exact at nodes (harness)")
-            want = exact
+            want = U[np.ix_(ridx, cidx)]
+        else:
+            if n < 4 or nt < 4:
+                rec.inconc("reference_spline_needs_4_nodes_and_4_levels")
+                return
+            want = RectBivariateSpline(grid, times, U)(go, tobs_arr)
     if OMAPS[c["omap"]] is not None:
         want = OMAPS[c["omap"]](want)
     if len(tobs_arr) == 1:
